@@ -26,6 +26,7 @@ inductive PState
   | idle | completed | userWait | userFailed | userSuccess
   | legacyRequested | legacyConfirmed
   | lescRequested | lescKeysExchanged | lescConfirmSend | lescRandomExchanged
+  | userWaitVerified      -- `user_response_wait_dhkey_verified`
 deriving DecidableEq, Repr
 
 inductive LegacyAlgo | justWorks | oob | passkeyDisplay | passkeyInput
@@ -193,6 +194,14 @@ def selectLesc (cfg : Cfg) (io : UInt8) : LescAlgo :=
       else if io = 0 then .passkeyInput
       else if io = 2 then .passkeyDisplay else .justWorks
 
+-- src: {lesc_,}security_connection_data::yes_no_response: a yes without a verified DHKey check
+-- goes back to `lesc_pairing_random_exchanged` (the local DHKey check will be the response to the
+-- remote one), a yes after the remote DHKey check was verified makes `l2cap_output` send the local one
+def yesNoResponse (st : PState) (b : Bool) : PState :=
+  if !b then .userFailed
+  else if st = .userWait then .lescRandomExchanged
+  else .userSuccess
+
 -- src: pairing_yes_no::sm_pairing_request_yes_no (wait_for_user_response, then the user's
 -- callback, which may call yes_no_response at once) / pairing_no_input::sm_pairing_request_yes_no.
 -- `pairing_keyboard` has no such function: LESC managers do not compile with a keyboard.
@@ -201,8 +210,8 @@ def requestYesNo (cfg : Cfg) (s : St) : St :=
   | .yesNo =>
       match s.userMode with
       | .async => { s with st := .userWait }
-      | .syncYes => { s with st := .userSuccess }
-      | .syncNo => { s with st := .userFailed }
+      | .syncYes => { s with st := yesNoResponse .userWait true }
+      | .syncNo => { s with st := yesNoResponse .userWait false }
   | _ => s
 
 /-! ### security_manager_base -/
@@ -397,8 +406,11 @@ def lescDhkeyCheck (C : Crypto) (cfg : Cfg) (s : St) (p : Bytes) : HRes :=
   if p.length ≠ 17 then fail s 0x0a
   else
     match s.st with
-    | .userWait => (s, [], none)
     | .userFailed => fail s 0x01
+    | .userWait =>
+        if lescEa C cfg s ≠ p.drop 1 then fail s 0x0b
+        -- connection data `remote_dhkey_check_verified`; Eb is sent by `lesc_l2cap_output`
+        else ({ s with st := .userWaitVerified }, [], none)
     | .lescRandomExchanged | .userSuccess =>
         if lescEa C cfg s ≠ p.drop 1 then fail s 0x0b
         else (lescCompleted C cfg s, 0x0d :: lescEb C cfg s, none)
@@ -514,10 +526,10 @@ inductive Out
   | key (k : Option Bytes)
 deriving Repr, DecidableEq
 
--- src: {lesc_,}security_connection_data::yes_no_response (asserts user_response_wait; the
--- harness and the model refuse the call in any other state)
+-- src: {lesc_,}security_connection_data::yes_no_response (asserts user_response_wait or
+-- user_response_wait_dhkey_verified; the harness and the model refuse the call in any other state)
 def answer (s : St) (b : Bool) : St × Out :=
-  if s.st = .userWait then ({ s with st := if b then .userSuccess else .userFailed }, .ok)
+  if s.st = .userWait ∨ s.st = .userWaitVerified then ({ s with st := yesNoResponse s.st b }, .ok)
   else (s, .illegal)
 
 def step (C : Crypto) (cfg : Cfg) (s : St) : Op → St × Out
